@@ -128,7 +128,7 @@ def cases(chk):
     yield "isspace", {"lo": 0, "hi": 0x3100}
     yield "isspace", {"lo": 0xFE00, "hi": 0xFF10}
     for fmt in ("json", "keyval"):
-        for how in ("path-ext", "path-noext", "profile", "fresh-profile", "dest", "profile-resave", "profile-inplace"):
+        for how in ("path-ext", "path-noext", "profile", "fresh-profile", "dest", "profile-resave", "profile-inplace", "reload-after-resave"):
             yield "config", {"fmt": fmt, "how": how, "cfg": {"phone": "491234", "cc": 49, "client_static_keypair": "11" * 64, "pushname": "yo"}}
     yield "config", {"fmt": "keyval", "how": "profile-libsave", "cfg": {"phone": "491234", "cc": 49, "pushname": "yo"}}
     yield "config", {"fmt": "json", "how": "profile-libsave", "cfg": {"phone": "491234", "cc": 49, "pushname": "yo"}}
@@ -184,7 +184,7 @@ def cases(chk):
                 yield "config", {"fmt": fmt, "how": how, "cfg": cfg}
     for _ in range(chk.scale(200, 6000)):
         fmt = r.choice(["json", "keyval"])
-        how = r.choice(["path-ext", "path-noext", "profile", "fresh-profile", "dest", "profile-resave", "profile-both", "profile-inplace"])
+        how = r.choice(["path-ext", "path-noext", "profile", "fresh-profile", "dest", "profile-resave", "profile-both", "profile-inplace", "reload-after-resave"])
         # (a profile holding both files is saved in whichever format the library prefers: values from the key=value format's domain)
         yield "config", dict({"fmt": fmt, "how": how, "cfg": gen_config(r, "keyval" if how == "profile-both" else fmt)}, **({"via": r.choice(["profile", "manager"])} if how == "profile-both" else {}))
 
@@ -305,6 +305,21 @@ def run_config(chk, case):
                     del vars(held)[k_]
             prof.write_config(held)
             loaded = YowProfile(name).config
+        elif how == "reload-after-resave":
+            # one process: load (whatever the library keeps of a file it has read), save another configuration of the SAME length under the same
+            # name right away (new key material has the old length; the same clock second), load again: the second load shows the second save
+            os.makedirs(pdir, exist_ok=True)
+            import copy
+            first = copy.deepcopy(cfg)
+            for k_, v_ in list(vars(first).items()):
+                if isinstance(v_, str) and v_ and k_.lstrip("_") not in ("phone", "cc", "login"):
+                    vars(first)[k_] = v_[::-1] if v_[::-1] != v_ else v_          # same length, other content
+            cm.save(name, first, stype)
+            cm.load(name)
+            from yowsup.config.manager import ConfigManager
+            ConfigManager().load(name)
+            cm.save(name, cfg, stype)
+            loaded = ConfigManager().load(name)
         elif how == "profile-both":
             # a profile that holds a file in BOTH formats (left by an earlier library version, or by an explicit save in the other format), then
             # the library's own plain save: whichever file the save goes to, loading by profile name must read that one
